@@ -467,6 +467,76 @@ fn run_cfg(cfg: &Config, acc: &mut Acc) {
     }
 }
 
+/// The numeric family: weights are numbers, not symbols.  EVERY pair of three-decimal
+/// qvalues (0.000 .. 1.000) for chunked and identity, in both listing orders, on HTTP/1.1 with
+/// status 200 and a 5-byte body: 1001 x 1001 x 2 TE values; item i covers the pairs with
+/// chunked's weight = i / 1000 (2002 evaluations).
+const NUMERIC_ITEMS: u64 = 1001;
+
+fn space_size(tier: Tier) -> u64 {
+    CACHE.with(|c| {
+        let mut c = c.borrow_mut();
+        if c.as_ref().map_or(true, |x| x.0 != tier) {
+            *c = Some((tier, space(tier)));
+        }
+        c.as_ref().unwrap().1 .0.size()
+    })
+}
+
+fn qtext(k: u32) -> String {
+    format!("{}.{:03}", k / 1000, k % 1000)
+}
+
+fn run_numeric(qa: u64, acc: &mut Acc) {
+    let qa = qa as u32;
+    for qb in 0..=1000u32 {
+        for chunked_first in [true, false] {
+            let (ta, tb) = (format!("chunked;q={}", qtext(qa)), format!("identity;q={}", qtext(qb)));
+            let text = if chunked_first { format!("{}, {}", ta, tb) } else { format!("{}, {}", tb, ta) };
+            acc.evals += 1;
+            acc.nontrivial += 1;
+            // reference: higher weight wins among weights > 0; equal weights: either; none > 0:
+            // length rule (5 < 32768: identity)
+            let want: Vec<Coding> = if qa == 0 && qb == 0 {
+                vec![Coding::Identity]
+            } else if qa > qb {
+                vec![Coding::Chunked]
+            } else if qb > qa {
+                vec![Coding::Identity]
+            } else {
+                vec![Coding::Chunked, Coding::Identity]
+            };
+            let resp = Response::new(StatusCode(200), vec![], Cursor::new(b"hello".to_vec()), Some(5), None);
+            let rq = vec![Header::from_bytes(&b"Host"[..], &b"x"[..]).unwrap(), Header::from_bytes(&b"TE"[..], text.as_bytes()).unwrap()];
+            let mut out = Vec::new();
+            let r = std::panic::catch_unwind(std::panic::AssertUnwindSafe(|| resp.raw_print(&mut out, HTTPVersion(1, 1), &rq, false, None)));
+            let used = match r {
+                Ok(Ok(())) => {
+                    let head = String::from_utf8_lossy(&out[..out.windows(4).position(|w| w == b"\r\n\r\n").unwrap_or(out.len())]).to_ascii_lowercase();
+                    if head.contains("\r\ntransfer-encoding: chunked") {
+                        Some(Coding::Chunked)
+                    } else if head.contains("\r\ncontent-length: 5") {
+                        Some(Coding::Identity)
+                    } else {
+                        None
+                    }
+                }
+                _ => None,
+            };
+            let ok = used.map_or(false, |u| want.contains(&u));
+            if !ok {
+                acc.violation(
+                    "selection:numeric-weights",
+                    format!("TE: {} -> {:?} used, the weights select {:?}", text, used, want),
+                    json!({"numeric_te": text, "want": format!("{:?}", want)}),
+                );
+                return;
+            }
+            acc.outcomes.insert(hash_str(&format!("numeric/{:?}", used)));
+        }
+    }
+}
+
 impl Check for C05 {
     fn id(&self) -> &'static str {
         "C05"
@@ -475,12 +545,17 @@ impl Check for C05 {
         "exploration"
     }
     fn n_items(&self, tier: Tier) -> u64 {
-        space(tier).0.size()
+        space(tier).0.size() + NUMERIC_ITEMS
     }
     fn chunk(&self, _tier: Tier) -> u64 {
         20_000
     }
     fn run_item(&self, idx: u64, tier: Tier, acc: &mut Acc) {
+        let n0 = space_size(tier);
+        if idx >= n0 {
+            run_numeric(idx - n0, acc);
+            return;
+        }
         CACHE.with(|c| {
             let mut c = c.borrow_mut();
             if c.as_ref().map_or(true, |x| x.0 != tier) {
@@ -504,7 +579,7 @@ impl Check for C05 {
     fn rule(&self, tier: Tier) -> String {
         let (sp, te, tl) = space(tier);
         format!(
-            "full product version{{0.9,1.0,1.1}} x status{:?} x (threshold,length){} pairs x HEAD x upgrade x 5 ways of building the response and declaring its length (constructor argument, Content-Length header through with_header or the constructor list, boxed(), with_data) x {} TE values (absent, singles in 3 letter cases, all ordered pairs{} of chunked/identity/gzip with q in {{absent,1,0.9,0.5,0.001,0}}, OWS variants, {} malformed-q robustness values) = {} configurations, each printed by Response::raw_print and compared with the reference selection function; non-trivial = version 1.1 and status not 1xx/204 (selection not forced)",
+            "full product version{{0.9,1.0,1.1}} x status{:?} x (threshold,length){} pairs x HEAD x upgrade x 5 ways of building the response and declaring its length (constructor argument, Content-Length header through with_header or the constructor list, boxed(), with_data) x {} TE values (absent, singles in 3 letter cases, all ordered pairs{} of chunked/identity/gzip with q in {{absent,1,0.9,0.5,0.001,0}}, OWS variants, {} malformed-q robustness values) = {} configurations, plus the numeric family: EVERY pair of three-decimal weights 0.000..1.000 for chunked and identity in both listing orders (2 004 002 TE values, HTTP/1.1, status 200), each printed by Response::raw_print and compared with the reference selection function; non-trivial = version 1.1 and status not 1xx/204 (selection not forced)",
             STATUSES, tl.len(), te.len(),
             if tier == Tier::Thorough { " and triples" } else { "" },
             te.iter().filter(|t| t.as_ref().map_or(false, |t| t.members.is_none())).count(),
@@ -520,6 +595,12 @@ impl Check for C05 {
         ]
     }
     fn replay(&self, replay: &Value, acc: &mut Acc) {
+        if let Some(te) = replay["numeric_te"].as_str() {
+            // re-run the item that contains this TE value
+            let qa: u64 = te.split("chunked;q=").nth(1).and_then(|x| x.split(',').next()).and_then(|x| x.trim().parse::<f64>().ok()).map(|f| (f * 1000.0).round() as u64).unwrap_or(0);
+            run_numeric(qa, acc);
+            return;
+        }
         let c = &replay["config"];
         let tier = Tier::Thorough;
         let te_txt = c["te_header"].as_str().map(|s| s.to_string());
